@@ -732,6 +732,71 @@ theorem inv_run {s s' : Sys} (h : Inv s) (r : CleanRun s s') : Inv s' := by
   | refl => exact h
   | step _ hroom hc e ih => exact inv_step _ ih hroom _ hc _ _ e
 
+theorem CleanRun.head {s s1 s2 : Sys} {op : Op} {r : Res} (hroom : RoomOk s) (hc : Op.Clean s op)
+    (e : s.step op = .ok (s1, r)) (h : CleanRun s1 s2) : CleanRun s s2 := by
+  induction h with
+  | refl => exact .step (.refl _) hroom hc e
+  | step _ hr hcl he ih => exact .step ih hr hcl he
+
+/-! ### an executable checker for clean runs (for concrete examples) -/
+
+def roomB (sys : Sys) : Bool :=
+  [SideId.A, SideId.B].all fun x =>
+    match (sys.side x).tcb with
+    | none => true
+    | some t => decide (t.sent + t.outgoing.text.length + 1 < 2147483648)
+
+def cleanB (sys : Sys) : Op → Bool
+  | .deliver x i =>
+    match sys.nth i with
+    | none => true
+    | some σ => σ.hdr.srcPort == x.peer.port && σ.hdr.dstPort == x.port
+  | .write .. => true
+  | .read _ => true
+  | .tick .. => true
+  | .emit _ => true
+  | .close _ => true
+  | _ => false
+
+def cleanRunB : Sys → List Op → Option Sys
+  | s, [] => some s
+  | s, op :: ops =>
+    if roomB s && cleanB s op then
+      match s.step op with
+      | .ok (s', _) => cleanRunB s' ops
+      | .error _ => none
+    else none
+
+theorem roomB_sound (sys : Sys) (h : roomB sys = true) : RoomOk sys := by
+  intro x t ht
+  unfold roomB at h
+  simp only [List.all_cons, List.all_nil, Bool.and_true, Bool.and_eq_true] at h
+  unfold Room
+  cases x with
+  | A => have := h.1; rw [ht] at this; simpa using this
+  | B => have := h.2; rw [ht] at this; simpa using this
+
+theorem cleanB_sound (sys : Sys) (op : Op) (h : cleanB sys op = true) : Op.Clean sys op := by
+  cases op <;> simp only [cleanB, Op.Clean] at h ⊢ <;> try trivial
+  · intro σ hσ
+    rw [hσ] at h
+    simpa using h
+  all_goals exact absurd h (by simp)
+
+theorem cleanRunB_sound (s s' : Sys) (ops : List Op) (h : cleanRunB s ops = some s') : CleanRun s s' := by
+  induction ops generalizing s with
+  | nil => simp only [cleanRunB, Option.some.injEq] at h; subst h; exact .refl _
+  | cons op ops ih =>
+    unfold cleanRunB at h
+    split at h
+    · rename_i hc
+      simp only [Bool.and_eq_true] at hc
+      split at h
+      · rename_i s1 r e
+        exact CleanRun.head (roomB_sound s hc.1) (cleanB_sound s op hc.2) e (ih s1 h)
+      · simp at h
+    · simp at h
+
 /-! ## the two ways the closed system starts -/
 
 theorem inv_empty_link (sys : Sys) (x : SideId) (hx : (sys.side x).tcb = none)
